@@ -56,6 +56,7 @@ vt_hexstr(const char * k, const char * s)
 	vt_hex(k, s, strlen(s));
 }
 
+static int use_https;
 static int cb_rc, cb_returned;	/* what the callback is told to return / has returned in this run */
 static int
 http_cb(void * cookie, struct http_response * res)
@@ -201,6 +202,8 @@ run_child(void)
 		} else if (strncmp(l, "connect ", 8) == 0) {
 			strncpy(conn, l + 8, sizeof(conn) - 1);
 		} else if (sscanf(l, "txcount %d", &txcount) == 1) {
+		} else if (strncmp(l, "https", 5) == 0) {
+			use_https = 1;
 		} else if (sscanf(l, "cbrc %d", &cb_rc) == 1) {
 		} else if (strncmp(l, "syslog", 6) == 0) {
 			warnp_syslog(1);	/* (warnings go to syslog instead of stderr: a property of the process, not of the request) */
@@ -295,12 +298,20 @@ run_child(void)
 			strs[ns] = __real_malloc(strlen(req.headers[q].value) + 1); strcpy(strs[ns], req.headers[q].value); hh[q].value = strs[ns++];
 		}
 		rq->headers = hh;
-		cookie = http_request(sas, rq, maxrlen, http_cb, NULL);
+		if (use_https) {
+			/* the TLS variant shares everything with http_request() except who owns the host name: only its start-up and its
+			 * cancellation are exercised here (no handshake is attempted) */
+			cookie = https_request(sas, rq, maxrlen, http_cb, NULL, "host.example");
+		} else
+			cookie = http_request(sas, rq, maxrlen, http_cb, NULL);
 		for (q = 0; q < ns; q++) { memset(strs[q], '#', strlen(strs[q])); __real_free(strs[q]); }
 		__real_free(strs); __real_free(hh); __real_free(rq);
 	}
 	vt_begin("http_request"); vt_bool("ok", cookie != NULL); common(); vt_end();
-	if (cookie != NULL) {
+	if (cookie != NULL && use_https) {
+		http_request_cancel(cookie);
+		vt_begin("cancel"); common(); vt_end();
+	} else if (cookie != NULL) {
 		/* run */
 		if (cancel_after >= 0) {
 			for (i = 0; i < cancel_after && ncb == 0; i++)
@@ -317,7 +328,12 @@ run_child(void)
 				vt_begin("run_ret"); vt_int("rc", k); vt_int("cbrc", cb_returned); common(); vt_end();
 				cb_returned = 0;
 				if (k != 0)
-					break;		/* the loop reported a fatal error (allocation failure): the request is gone */
+					break;		/* the loop reported a fatal error (allocation failure) */
+			}
+			if (i < 400000 && ncb == 0 && k != 0) {
+				/* no callback has told the caller that the request is over, so the caller releases it the normal way */
+				http_request_cancel(cookie);
+				vt_begin("cancel"); common(); vt_end();
 			}
 		}
 	}
